@@ -1,8 +1,150 @@
-/- driver ops for the Cps model (filled in when the module is ported) -/
+/- driver ops for the Cps and Graph models -/
 import BB.Model.Instrs
+import BB.Model.Cps
+import BB.Model.Graph
 
 namespace BB.Driver.OpsCps
 
-def handle (_op : String) (_args : List String) (_text : String) : Option String := none
+open BB.Cps
+
+def withProg (text : String) (f : Prog → String) : String :=
+  match Prog.fromStr text with
+  | .error _ => "PANIC"
+  | .ok p => f p
+
+def showOut : CpsOut → String
+  | .ok b => toString b
+  | .panic => "PANIC"
+  | .fuel => "limit:fuel"
+
+def showRes : CpsRes → String
+  | .yes _ => "true"
+  | .no => "false"
+  | .panic => "PANIC"
+  | .fuel => "limit:fuel"
+
+def showGraph : BB.Graph.Out → String
+  | .ok b => toString b
+  | .panic => "PANIC"
+  | .overflow => "limit:overflow"
+
+def parseGoal : String → Option Goal
+  | "halt" => some .halt
+  | "blank" => some .blank
+  | "spin_out" => some .spinout
+  | _ => none
+
+def earlyTrue (p : Prog) : Goal → Bool
+  | .halt => p.haltSlots.isEmpty
+  | .blank => p.eraseSlots.isEmpty
+  | .spinout => p.zrShifts.isEmpty
+
+def showUnclosed : Unclosed → String
+  | .noInit => "no-init"
+  | .initSpans => "init-spans"
+  | .haltSlot => "halt-slot"
+  | .pushUnreg => "push-unreg"
+  | .pullUnreg => "pull-unreg"
+  | .goalHit => "goal-hit"
+  | .succMissing => "succ-missing"
+
+/-- `cps_closed`: first seg in `2..rad` whose run returns true; check its final triple. -/
+def closedFrom (p : Prog) (goal : Goal) : Nat → Nat → String
+  | 0, _ => "n/a"
+  | n + 1, seg =>
+    match cpsCantReach p seg goal with
+    | .yes cs =>
+      match closedCheck p goal seg cs.seen cs.lspans cs.rspans with
+      | none => "closed"
+      | some e => s!"not-closed:{showUnclosed e}"
+    | .no => closedFrom p goal n (seg + 1)
+    | .panic => "n/a"
+    | .fuel => "n/a"
+
+def nextGoal : Goal → Goal
+  | .halt => .blank
+  | .blank => .spinout
+  | .spinout => .halt
+
+/-- `cps_closed_mut`: as `closedFrom`, but the final triple is damaged before it is checked
+    (k = 1: newest configuration dropped, 2: oldest (= initial) dropped, 3: left span map
+    emptied, 4: checked against the next goal) — shows that the checker is not vacuous. -/
+def closedMutFrom (p : Prog) (goal : Goal) (k : Nat) : Nat → Nat → String
+  | 0, _ => "n/a"
+  | n + 1, seg =>
+    match cpsCantReach p seg goal with
+    | .yes cs =>
+      let r :=
+        match k with
+        | 1 => closedCheck p goal seg cs.seen.tail cs.lspans cs.rspans
+        | 2 => closedCheck p goal seg cs.seen.dropLast cs.lspans cs.rspans
+        | 3 => closedCheck p goal seg cs.seen {} cs.rspans
+        | _ => closedCheck p (nextGoal goal) seg cs.seen cs.lspans cs.rspans
+      match r with
+      | none => "closed"
+      | some e => s!"not-closed:{showUnclosed e}"
+    | .no => closedMutFrom p goal k n (seg + 1)
+    | .panic => "n/a"
+    | .fuel => "n/a"
+
+/-- driver-only re-implementation of the pass loop that also counts passes:
+    returns (answer, passes started, final |seen|). -/
+def countPasses (p : Prog) (goal : Goal) (maxDepth innerFuel : Nat)
+    (order : List Config → List Config) : Nat → Nat → Configs → String × Nat × Nat
+  | 0, k, cs => ("false:loops", k, cs.size)
+  | loops + 1, k, cs =>
+    match runPass p goal maxDepth innerFuel cs (order cs.seen) false with
+    | .retFalse => ("false", k + 1, cs.size)
+    | .panic => ("PANIC", k + 1, cs.size)
+    | .fuel => ("limit:fuel", k + 1, cs.size)
+    | .done cs' upd =>
+      if upd then countPasses p goal maxDepth innerFuel order loops (k + 1) cs'
+      else ("true", k + 1, cs'.size)
+
+def ordOf (s : String) : List Config → List Config :=
+  if s == "1" then List.reverse else id
+
+def handle (op : String) (args : List String) (text : String) : Option String :=
+  match op, args with
+  | "cps_halt", [rad] => some <| withProg text fun p => showOut (cpsCantHalt p rad.toNat!)
+  | "cps_blank", [rad] => some <| withProg text fun p => showOut (cpsCantBlank p rad.toNat!)
+  | "cps_spin_out", [rad] => some <| withProg text fun p => showOut (cpsCantSpinOut p rad.toNat!)
+  | "cps_halt_fix", [rad] => some <| withProg text fun p => showOut (cpsCantHalt p rad.toNat! true)
+  -- driver-only: the same with every pass's work-list reversed
+  | "cps_halt_rev", [rad] =>
+    some <| withProg text fun p => showOut (cpsCantHalt p rad.toNat! false List.reverse)
+  | "cps_blank_rev", [rad] =>
+    some <| withProg text fun p => showOut (cpsCantBlank p rad.toNat! List.reverse)
+  | "cps_spin_out_rev", [rad] =>
+    some <| withProg text fun p => showOut (cpsCantSpinOut p rad.toNat! List.reverse)
+  -- driver-only: cps_run with explicit limits and order: cps_lim goal rad maxLoops maxDepth rev
+  | "cps_lim", [g, rad, ml, md, rev] =>
+    some <| match parseGoal g with
+    | none => "BAD-OP"
+    | some goal => withProg text fun p =>
+      showOut (cpsRun p rad.toNat! goal ml.toNat! md.toNat! (ordOf rev))
+  -- driver-only: one cps_cant_reach with pass count: cps_passes goal seg rev
+  | "cps_passes", [g, seg, rev] =>
+    some <| match parseGoal g with
+    | none => "BAD-OP"
+    | some goal => withProg text fun p =>
+      let seg := seg.toNat!
+      if seg == 0 then "PANIC" else
+      let r := countPasses p goal MAX_DEPTH (innerFuelFor p seg) (ordOf rev) MAX_LOOPS 0
+        (Configs.init seg)
+      s!"{r.1} passes={r.2.1} seen={r.2.2}"
+  | "cps_closed", [g, rad] =>
+    some <| match parseGoal g with
+    | none => "BAD-OP"
+    | some goal => withProg text fun p =>
+      if earlyTrue p goal then "n/a" else closedFrom p goal (rad.toNat! - 2) 2
+  | "cps_closed_mut", [g, rad, k] =>
+    some <| match parseGoal g with
+    | none => "BAD-OP"
+    | some goal => withProg text fun p =>
+      if earlyTrue p goal then "n/a" else closedMutFrom p goal k.toNat! (rad.toNat! - 2) 2
+  | "connected", [states] =>
+    some <| withProg text fun p => showGraph (BB.Graph.isConnected p states.toNat!)
+  | _, _ => none
 
 end BB.Driver.OpsCps
